@@ -30,6 +30,36 @@ from kawin.solver.Solver import DESolver, SolverType
 
 NAN, INF = float("nan"), float("inf")
 
+from vk import symnp as _sn0
+
+
+def _f_histogram(a, bins=10, range=None, density=None, weights=None):
+    """np.histogram for symbol-free data and edges held in object arrays (GrainGrowthModel.LoadDistribution): plain numpy on the
+    float values; the edges come back as an object array like every float array in symbolic mode.  Symbolic data is not supported."""
+    from vk import symnp as sn
+    if sn.has_sym(a) or sn.has_sym(bins) or weights is not None:
+        raise core.FacadeMissing("numpy.histogram on symbolic data")
+    import numpy as rnp
+    fa = sn.to_float(sn.plain(sn.to_obj(a))) if isinstance(a, (rnp.ndarray, list, tuple)) else a
+    fb = sn.to_float(sn.plain(sn.to_obj(bins))) if isinstance(bins, (rnp.ndarray, list, tuple)) else bins
+    cnt, edges = rnp.histogram(fa, fb, range=range, density=density)
+    if not sn.symbolic_mode():
+        return cnt, edges
+    # the counts are converted by the caller with .astype('float'); in symbolic mode float data lives in object arrays (a genuine
+    # float array would later meet symbolic scalars outside the facade), so that conversion is made to keep the object layout
+    return cnt.astype(float).astype(object).view(_Counts), sn.wrap_num(edges)
+
+
+class _Counts(_sn0.SymArray):
+    def astype(self, dtype, *a, **kw):
+        import numpy as rnp
+        if rnp.dtype(dtype).kind == "f":
+            return self.view(_sn0.SymArray).copy()
+        return _sn0.SymArray.astype(self.view(_sn0.SymArray), dtype, *a, **kw)
+
+
+_sn0.FUNCS.setdefault("histogram", _f_histogram)
+
 # engine gap worked around here: StrengthModel.precStrength converts a boolean mask with np.array(mask, dtype='int'); numpy then calls
 # int() on every element.  A symbolic boolean is concretised by forking (sound: both values are explored).
 if not hasattr(core.SymBool, "__int__"):
@@ -476,6 +506,95 @@ def gg_frozen(ctx, dist="a", solver="rk4"):
     ctx.prove("frozen structure: mean grain size unchanged", ctx.all([ctx.le(a3, r0 ** 3 * (1 + 1e-8) + 0.0 * t_gg), ctx.le(r0 ** 3 * (1 - 1e-8) + 0.0 * t_gg, a3)]))
 
 
+def _m3(pb):
+    return sum(pb.PSD[i] * pb.PSDsize[i] ** 3 for i in range(len(pb.PSD)))
+
+
+def gg_reload_sym(ctx, n=2):
+    """load (function loader, symbolic class weights) -> reset() -> [load again] -> one iteration that leaves the populations
+    unchanged: reset() restores the normalised loaded distribution, so the total grain volume is the same before and after the step"""
+    rmin, dr = 0.05, 0.02
+    gg = GrainGrowthModel(rmin, rmin + n * dr, n, 1, 10 * n)
+    w = ctx.reals("w", n, (1.0, 6.0))
+    for i in range(n):
+        ctx.assume(w[i] > 0)
+    t1 = ctx.real("t1", (0.5, 2.0)); ctx.assume(t1 > 0)
+    fn = lambda R: w + 0.0 * R
+    gg.LoadDistributionFunction(fn)
+    loaded = [gg.pbm.PSD[i] * 1 for i in range(n)]; lb = [gg.pbm.PSDbounds[i] * 1 for i in range(n + 1)]
+    ctx.observe("loaded", gg.pbm.PSD)
+    v_load = _m3(gg.pbm)
+    ctx.prove("loading normalises the total grain volume to 1", ctx.eq(v_load, 1.0))
+    # every class of the normalised distribution holds at least one grain (the PBM drops classes below one)
+    for i in range(n):
+        ctx.assume(loaded[i] >= 1)
+    gg.pbm.PSD[0] = gg.pbm.PSD[0] + 1.0          # the run changes the live distribution ...
+    gg.time = np.append(gg.time, t1)
+    gg.reset()                                   # ... and reset() goes back to the loaded structure
+    ctx.observe("after_reset", gg.pbm.PSD)
+    ctx.prove("reset: class count and grid as loaded", gg.pbm.bins == n and np.shape(gg.pbm.PSD) == (n,) and np.shape(gg.pbm.PSDbounds) == (n + 1,))
+    if np.shape(gg.pbm.PSD) != (n,):
+        return
+    ctx.prove("reset restores the normalised loaded distribution", ctx.all([ctx.eq(gg.pbm.PSD[i], loaded[i]) for i in range(n)]))
+    ctx.prove("reset restores the loaded grid", ctx.all([ctx.eq(gg.pbm.PSDbounds[i], lb[i]) for i in range(n + 1)]))
+    v_reset = _m3(gg.pbm)
+    ctx.prove("reset: total grain volume as after loading", ctx.eq(v_reset, v_load))
+    ctx.prove("reset: clock back to a single entry 0", np.shape(gg.time) == (1,) and float(gg.time[0]) == 0.0)
+    # load -> reset -> load: same state as after the first load
+    gg.LoadDistributionFunction(fn)
+    ctx.prove("load after reset gives the state of the first load", ctx.all([ctx.eq(gg.pbm.PSD[i], loaded[i]) for i in range(n)] + [ctx.eq(gg._oldPSD[i], loaded[i]) for i in range(n)]))
+    gg.reset()
+    ctx.prove("second reset restores the normalised loaded distribution", ctx.all([ctx.eq(gg.pbm.PSD[i], loaded[i]) for i in range(n)]))
+    # first iteration after reset; populations unchanged by the transport (frozen boundaries)
+    x = np.array(gg.pbm.PSD)
+    gg.postProcess(t1, [x])
+    ctx.observe("after_step", gg.pbm.PSD)
+    ctx.prove("total grain volume conserved across the first step after reset", ctx.eq(_m3(gg.pbm), v_reset))
+
+
+def gg_reload(ctx, loader="function", dist="a", solver="rk4", runs=1):
+    """load (either loader) -> [frozen coupled step] -> reset() -> frozen coupled step through the real solve: reset() restores the
+    loaded, normalised distribution and the total grain volume is conserved across the first step after reset"""
+    wts = DISTS[dist]; n = len(wts)
+    m, d = mk_host(ctx, 1, 2, 2)
+    d.n = 1
+    rp = 0.001
+    d.Ravg[1, 0] = rp
+    rmin, dr = 0.05, 0.02
+    gg = GrainGrowthModel(rmin, rmin + n * dr, n, 1, 10 * n, solverType=SolverType.RK4 if solver == "rk4" else SolverType.EXPLICITEULER)
+    gg.setGrainBoundaryMobility(1.0); gg.setGrainBoundaryEnergy(0.5)
+    ctx.assume(d.volFrac[1, 0] * rmin >= gg.K["all"] * rp, "strong pinning: z >= 1/R_min")
+    if loader == "function":
+        gg.LoadDistributionFunction(lambda R: np.array(wts) + 0.0 * R)
+    else:
+        data = [rmin + (i + 0.5) * dr for i in range(n) for _ in range(int(wts[i]))]
+        gg.LoadDistribution(data)
+    loaded = [float(gg.pbm.PSD[i]) for i in range(n)]
+    v_load = sum(loaded[i] * float(gg.pbm.PSDsize[i]) ** 3 for i in range(n))
+    tol = 1e-9
+    zero = 0.0 * d.time[0]
+    ctx.prove("loading normalises the total grain volume to 1", abs(v_load - 1) <= tol)
+    for _ in range(runs - 1):
+        gg.updateCoupledModel(m)                 # a run before the reset
+    gg.reset()
+    ctx.prove("reset: class count as loaded", gg.pbm.bins == n and np.shape(gg.pbm.PSD) == (n,))
+    if np.shape(gg.pbm.PSD) != (n,):
+        return
+    ctx.observe("after_reset", gg.pbm.PSD)
+    ctx.prove("reset restores the normalised loaded distribution",
+              ctx.all([ctx.all([ctx.le(gg.pbm.PSD[i], loaded[i] * (1 + tol) + zero), ctx.le(loaded[i] * (1 - tol) + zero, gg.pbm.PSD[i])]) for i in range(n)]))
+    v_reset = _m3(gg.pbm)
+    ctx.prove("reset: total grain volume as after loading", ctx.all([ctx.le(v_reset, v_load * (1 + tol) + zero), ctx.le(v_load * (1 - tol) + zero, v_reset)]))
+    gg.updateCoupledModel(m)                     # first (frozen) step after reset, real solve
+    ctx.observe("after_step", gg.pbm.PSD); ctx.observe("clock", gg.time)
+    ctx.prove("class count unchanged by the step", np.shape(gg.pbm.PSD) == (n,))
+    if np.shape(gg.pbm.PSD) != (n,):
+        return
+    v_step = _m3(gg.pbm)
+    ctx.prove("total grain volume conserved across the first step after reset", ctx.all([ctx.le(v_step, v_reset * (1 + tol) + zero), ctx.le(v_reset * (1 - tol) + zero, v_step)]))
+    ctx.prove("clock restarts at 0 and advances by the host step", ctx.all([ctx.eq(gg.time[0], 0.0, rtol=0.0), ctx.eq(gg.time[-1], d.time[1] - d.time[0])]))
+
+
 _FS = [StrengthModel.getStrengthContributions, StrengthModel.combineStrengthContributions, StrengthModel.totalStrength, StrengthModel._getStrengthFunctions,
        StrengthModel.orowan, StrengthModel.updateCoupledModel, StrengthModel.rssterm, StrengthModel.Lsterm, StrengthModel.ssStrength,
        StrengthModel.setStrengthSuperpositionExponent, StrengthModel.setDislocationParameters]
@@ -526,6 +645,17 @@ HARNESSES = [
     Harness("C18.gg_frozen", gg_frozen, functions=_FG, assumptions=_A + ["pinning strong enough to freeze every boundary (z * smallest grain radius >= 1)", "host step > 0; host times, grain-growth clock and precipitate volume fraction symbolic"],
             bounds={"grain distribution": "concrete, 2-3 classes (DISTS)", "host steps": 1}, opts={"ob_timeout": 30.0, "max_paths": 300},
             params={"quick": [{"dist": "a", "solver": "rk4"}, {"dist": "b", "solver": "euler"}], "thorough": [{"dist": dd, "solver": sv} for dd in ("a", "b", "c") for sv in ("rk4", "euler")]}),
+    Harness("C18.gg_reload_sym", gg_reload_sym, functions=_FG + [GrainGrowthModel.LoadDistributionFunction, GrainGrowthModel.reset],
+            assumptions=_A + ["symbolic positive class weights on a concrete grid; every class of the normalised distribution holds at least one grain",
+                              "the step after reset is one solver iteration (postProcess) whose transport leaves the populations unchanged"],
+            bounds={"grain size classes": "n"}, opts={"ob_timeout": 30.0, "max_paths": 300},
+            params={"quick": [{"n": 2}, {"n": 3}], "thorough": [{"n": 2}, {"n": 3}, {"n": 4}]}),
+    Harness("C18.gg_reload", gg_reload, functions=_FG + [GrainGrowthModel.LoadDistribution, GrainGrowthModel.LoadDistributionFunction, GrainGrowthModel.reset],
+            assumptions=_A + ["pinning strong enough to freeze every boundary; host times and precipitate volume fraction symbolic; concrete grain distribution (np.histogram needs concrete data)"],
+            bounds={"grain distribution": "concrete, 2-3 classes (DISTS)", "steps after reset": 1}, opts={"ob_timeout": 30.0, "max_paths": 300},
+            params={"quick": [{"loader": "function", "dist": "a", "solver": "rk4", "runs": 1}, {"loader": "data", "dist": "b", "solver": "euler", "runs": 1},
+                              {"loader": "data", "dist": "a", "solver": "rk4", "runs": 2}],
+                    "thorough": [{"loader": ld, "dist": dd, "solver": sv, "runs": rn} for ld in ("function", "data") for dd in ("a", "b", "c") for sv in ("rk4", "euler") for rn in (1, 2)]}),
 ]
 
 from harness.c18_extra import EXTRA as _EXTRA
